@@ -20,7 +20,7 @@ def run_case(ctx, n):
   rng = ctx.rng('kind', n)
   if rng.random() < 0.2:
     return instr_host_case(ctx, n)
-  r = qcheck.run_qcase(ctx, n, ('C19',), long_run=rng.random() < 0.3)
+  r = qcheck.run_qcase(ctx, n, ('C19',), with_queries=n % 2 == 0, long_run=rng.random() < 0.3)
   if r is None:
     return
   res, spec, cfg = r
